@@ -122,6 +122,74 @@ def expected_entries(entries):
     return [(k, val[k]) for k in order]
 
 
+# ---- histories of in-memory API calls (kind txth; the C06/C07 link) ----
+H_KEYS = [[], [0x6B], [0x4B, 0x32], list(b"MID_A"), list(b"MID_B_1"), [0x7F], [0x01], list(b"a b"), list(b"MID_A2"), [0x5C, 0x6E]]
+H_FRAGMENTS = [[0x5C, 0x6E], [0x5C], [0x5C, 0x5C, 0x6E], [0x0A], [0x5C, 0x4E], [0x6E], [0x5C, 0x6E, 0x5C, 0x6E], [0x0D, 0x0A]]
+
+
+def rnd_hist_msg(rng, alpha, n):
+    out = []
+    for _ in range(n):
+        if rng.random() < 0.25:
+            out += rng.choice(H_FRAGMENTS)
+        else:
+            out.append(rng.choice(alpha))
+    return out
+
+
+def rnd_history(rng, maxops, fmt="U"):
+    ks = rng.sample(H_KEYS, rng.choice([1, 2, 3, 5, 8]))
+    alpha = U_ALPHABETS[rng.choice(list(U_ALPHABETS))] if fmt == "U" else list(range(1, 128))     # legacy format: ASCII (Shift-JIS identity)
+    ops = []
+    for _ in range(rng.randint(0, maxops)):
+        r = rng.random()
+        k = rng.choice(ks)
+        if r < 0.55:
+            ops.append(("S", k, rnd_hist_msg(rng, alpha, rng.choice([0, 1, 2, 3, 4, 5, rng.randint(0, 30)]))))
+        elif r < 0.75:
+            ops.append(("D", k))
+        elif r < 0.85:
+            ops.append(("T", [rng.randint(1, 127) for _ in range(rng.randint(0, 9))]))
+        elif r < 0.93:
+            ops.append(("G", k))
+        else:
+            ops.append(("H", k))
+    return ops
+
+
+def render_hist(fmt, endian, ops):
+    parts = ["txth", fmt, endian]
+    for op in ops:
+        parts.append(op[0])
+        parts += [L(x) for x in op[1:]]
+    return " ".join(parts)
+
+
+def parse_hist(line):
+    t = line.split()
+    fmt, endian, ops, i = t[1], t[2], [], 3
+    while i < len(t):
+        n = 3 if t[i] == "S" else 2
+        ops.append(tuple([t[i]] + [list(unL(x)) for x in t[i + 1:i + n]]))
+        i += n
+    return fmt, endian, ops
+
+
+def hist_expected(ops):
+    """the in-memory archive after the history, by Python's own insertion-ordered dict and str.replace (independent of
+    the Coq model): title, [(key, message)] as lists of scalar values"""
+    d, title = {}, []
+    for op in ops:
+        if op[0] == "S":
+            text = "".join(map(chr, op[2])).replace("\\n", "\n")
+            d[tuple(op[1])] = [ord(c) for c in text]      # assignment keeps the place of an existing key
+        elif op[0] == "D":
+            d.pop(tuple(op[1]), None)                     # a later assignment appends the key again
+        elif op[0] == "T":
+            title = list(op[1])
+    return title, [(list(k), v) for (k, v) in d.items()]
+
+
 def rnd_key(rng, i, style):
     if style == "id":
         return ("MID_%s_%d" % (rng.choice(["A", "Bc", "NAME", "H"]), i)).encode()
@@ -139,7 +207,10 @@ class C06(PropertyCheck):
             "katakana and trail byte 0x5C / BMP incl. U+FEFF,U+FFFE,U+FFFF / astral / byte-coincidence units / lone CR) x 2 encodings x 2 "
             "endiannesses: serialize image byte-exact vs the extracted model, from_bytes of it vs input and model, image examined by an "
             "independent Python reference reader (4-aligned offsets, label = key, cells tile the data region); length grid; edge cases "
-            "(empty archives, BOM-like first characters, repeated set_message); the two game files re-serialized byte-exactly; "
+            "(empty archives, BOM-like first characters, repeated set_message); histories of set_message (with escape sequences) / delete_message "
+            "/ re-add / set_title / lookups followed by serialize -> from_bytes, compared with Python's own ordered dict and with the model of "
+            "C07 pushed through the model of C06 (kind txth); conforming files of ANOTHER writer (Python: shuffled pointer/label tables, junk and "
+            "duplicated strings in the text section) parsed by from_bytes; the two game files re-serialized byte-exactly; "
             "from_archive on API-built well- and ill-formed archives; A-codec sweep of every scalar value / every lossless Shift-JIS "
             "code in first and inner position on the real library. Non-trivial = an archive with at least one message parsed back; "
             "distinct = distinct case line.")
@@ -215,11 +286,41 @@ class C06(PropertyCheck):
                     es = [(rnd_key(rng, i, "id"), rnd_msg(f, alpha, rng.randint(0, 12))) for i in range(nk)]
                     cases.append(Case(render(f, e, b"big", es), "api-roundtrip-large"))
 
+        # -- histories of API calls (set / delete / re-add / set_title / lookups), then serialize -> from_bytes
+        for (f, e) in combos:
+            for ops in ([], [("T", [84])], [("S", [107], [0x5C, 0x6E])], [("S", [107], [97]), ("D", [107])],
+                        [("S", [97], [1]), ("S", [98], [2]), ("S", [99], []), ("S", [97], [3]), ("D", [98]), ("S", [98], [0x1F600 if f == "U" else 0x7E])],
+                        [("S", [], [0xFEFF if f == "U" else 0x7F]), ("D", [120]), ("S", [], [0x5C, 0x5C, 0x6E])]):
+                cases.append(Case(render_hist(f, e, ops), "history"))
+        for _ in range(500 if quick else 8000):
+            f = "U" if rng.random() < 0.7 else "S"
+            cases.append(Case(render_hist(f, rng.choice("LB"), rnd_history(rng, 25 if quick else 80, f)), "history"))
+
         # -- the repository's own files
         for (name, f, e) in (("TextArchive_Test.bin", "U", "L"), ("TextArchive_Legacy_Test.bin", "S", "B")):
             p = os.path.join(TESTDIR, name)
             if os.path.exists(p):
                 cases.append(Case("txtf %s %s %s" % (f, e, B(open(p, "rb").read())), "game-files"))
+
+        # -- conforming files written by ANOTHER writer (Python): pointer / label tables shuffled, junk and duplicated strings in the
+        #    text section; from_bytes must read the same title and entries (C06_parse_any_conforming_file)
+        for _ in range(300 if quick else 5000):
+            f, e = rng.choice(combos)
+            alpha = alphabets(f)[rng.choice(list(alphabets(f)))]
+            title = rnd_sj(rng, SJ_ASCII, rng.randint(0, 7)) if f == "U" else b""
+            data = bytearray(txtfile.text_cell("S", title)) if f == "U" else bytearray()
+            labels, entries = [], []
+            for i in range(rng.choice([0, 1, 2, 3, rng.randint(0, 12)])):
+                k = rnd_key(rng, i, rng.choice(["id", "short"]))
+                m = rnd_msg(f, alpha, rng.choice([0, 1, 2, 3, 4, rng.randint(0, 20)]))
+                labels.append((len(data), k))
+                data += txtfile.text_cell(f, m)
+                entries.append((k, m))
+            image = txtfile.bin_write(e, data, labels=labels, rng=rng, shuffle_tables=rng.random() < 0.7, junk_text=rng.random() < 0.5,
+                                      dup_strings=rng.random() < 0.5)
+            c = Case("txtf %s %s %s" % (f, e, B(image)), "foreign-writer")
+            c.meta = {"expect": (title, entries)}
+            cases.append(c)
 
         # -- from_archive on API-built archives (reference writer; well- and ill-formed)
         n_arch = 800 if quick else 12000
@@ -302,6 +403,32 @@ class C06(PropertyCheck):
             return self.oracle_file(case, impl_out)
         if kind == "txta":
             return self.oracle_archive(case, impl_out)
+        if kind == "txth":
+            return self.oracle_history(case, impl_out)
+        return None
+
+    def oracle_history(self, case, impl_out):
+        fmt, endian, ops = parse_hist(case.line)
+        if not impl_out.startswith("ser=ok:"):
+            return "serialize failed after a history of API calls: " + impl_out[:80]
+        ser_tok, parse = impl_out[len("ser=ok:"):].split(" | parse=", 1)
+        title, entries = hist_expected(ops)
+        if fmt == "S":
+            title = []                          # the legacy format stores no title
+        want_line = "ok d0 T=%s [%s]" % (L(title), " ".join("%s=%s" % (L(k), L(m)) for (k, m) in entries))
+        if parse != want_line:
+            return "from_bytes(serialize(archive after the history)) differs from get_entries: want %s got %s" % (want_line[:300], parse[:300])
+        try:
+            rt, res, problems = txtfile.text_read(fmt, endian, unB(ser_tok))
+        except (txtfile.Malformed, struct.error) as ex:
+            return "reference reader rejects the image: %s" % ex
+        if problems:
+            return "layout: " + "; ".join(problems[:4])
+        if list(rt) != title:
+            return "reference reader: title %r, want %r" % (rt, title)
+        enc = utf16 if fmt == "U" else list
+        if [(list(k), list(m)) for (k, m) in res] != [(k, enc(m)) for (k, m) in entries]:
+            return "reference reader finds other entries than the history left (order, key labels or encoded message)"
         return None
 
     def oracle_txt(self, case, impl_out):
@@ -333,6 +460,23 @@ class C06(PropertyCheck):
     def oracle_file(self, case, impl_out):
         t = case.line.split()
         fmt, endian, f = t[1], t[2], unB(t[3])
+        if case.stream == "foreign-writer":
+            exp = case.meta.get("expect") if case.meta else None
+            if exp is None:
+                return None                       # a replayed case carries no expectation
+            title, entries = exp
+            ents = " ".join("%s=%s" % (txtfile.DECODER.dec(k)[0], L(m) if fmt == "U" else txtfile.DECODER.dec(m)[0]) for (k, m) in entries)
+            want = "parse=ok d0 T=%s [%s]" % (txtfile.DECODER.dec(title)[0], ents)
+            head, reser = (impl_out.split(" | reser=", 1) + [""])[:2]
+            if head != want:
+                return "a conforming file of another writer: want %s got %s" % (want[:200], head[:200])
+            if not reser.startswith("ok:"):
+                return "re-serialization of a conforming file failed: " + reser[:80]
+            rt, res, problems = txtfile.text_read(fmt, endian, unB(reser[3:]))
+            if problems or rt != title or [(k, list(m) if fmt == "U" else bytes(m)) for (k, m) in res] != \
+                    [(k, list(m) if fmt == "U" else bytes(m)) for (k, m) in entries]:
+                return "the re-serialized image does not hold the file's entries: " + "; ".join(problems[:3])
+            return None
         if not impl_out.startswith("parse=ok "):
             return "a file of the repository does not parse: " + impl_out[:80]
         head, reser = impl_out.split(" | reser=", 1)
@@ -381,6 +525,15 @@ class C06(PropertyCheck):
         return "=" in impl_out.split("parse=", 1)[-1].split("| reser")[0] and "parse=ok" in impl_out or impl_out.startswith("ok ")
 
     def shrink_candidates(self, case):
+        if case.line.startswith("txth "):
+            fmt, endian, ops = parse_hist(case.line)
+            for i in range(len(ops)):
+                yield Case(render_hist(fmt, endian, ops[:i] + ops[i + 1:]), case.stream)
+            for i, op in enumerate(ops):
+                if op[0] == "S" and len(op[2]) > 1:
+                    for cut in (op[2][:len(op[2]) // 2], op[2][1:], op[2][:-1]):
+                        yield Case(render_hist(fmt, endian, ops[:i] + [("S", op[1], cut)] + ops[i + 1:]), case.stream)
+            return
         if not case.line.startswith("txt "):
             return
         fmt, endian, title, entries = parse_case(case.line)
@@ -417,11 +570,18 @@ MANIFEST = dict(
          "a multiple of 4, holds exactly its cell and carries exactly its key as label; the reader depends only on the observable content of "
          "the archive, so the round trip on BYTES (C06_round_trip: TextFormat.serialize then TextFormat.from_bytes, both arithmetic profiles; "
          "C06_layout_bytes: the layout read off the parsed image) follows from the bin-archive round trip C01, whose hypotheses wf_archive / fits32 "
-         "are proved for every archive the text writer builds when the image is smaller than 4 GiB (Proofs/TextBinBridge.v; no premise, no axiom). Model tied to /repo on every run: serialize image byte-exact vs the extracted model, re-parsed entries vs "
-         "input and model, image examined by an independent Python reference reader, the two game files, from_archive on API-built archives, "
+         "are proved for every archive the text writer builds when the image is smaller than 4 GiB (Proofs/TextBinBridge.v; no premise, no axiom). "
+         "Link to C07 (C06_history_round_trip): after ANY history of set_message (with its escape handling) / delete_message / set_title / lookups "
+         "from TextArchive::new, serialize -> from_bytes returns the title and exactly get_entries (Unicode format: keys/title NUL-free ASCII, "
+         "messages NUL-free Rust strings; legacy format, C06_history_round_trip_legacy: everything NUL-free ASCII, no title stored), with str::encode_utf16 and the UTF-16 decoder modelled on scalar values and proved mutually inverse "
+         "(C06_utf16_codec, C06_utf16_units_are_strings). Model tied to /repo on every run: serialize image byte-exact vs the extracted model, re-parsed entries vs "
+         "input and model, image examined by an independent Python reference reader, histories of API calls pushed through the real library, the "
+         "C07 model composed with the C06 model, and Python's own ordered dict (kind txth), the two game files, from_archive on API-built archives, "
          "and an A-codec sweep of every scalar value / lossless Shift-JIS code on the real library.",
     note=TB + "All C06 theorems are premise-free (hypotheses: distinct keys, NUL-free encoded text, valid UTF-16, bytes < 256, image < 2^32). "
-              "Modelled, not verified: encoding_rs / encode_utf16 (A-codec, checked by the harness per case and by the sweep), IndexMap, Vec (A-std). "
+              "Modelled, not verified: encoding_rs Shift-JIS (A-codec, checked by the harness per case and by the sweep; the history theorem uses it only on "
+              "ASCII, where it is the identity), IndexMap, Vec (A-std); encode_utf16 / the UTF-16 decoder are modelled AND proved inverse, and tied to the library "
+              "by the txth stream and the sweep. "
               "Repaired defects: F10 d30c8b5, F11 b4ac2c0.",
     technique="Coq proof (induction over the message list: a terminator-free body followed by its terminator is read back exactly and the "
               "aligned skip lands on the next cell) + extracted-model differential check + independent reference reader",
